@@ -1782,10 +1782,13 @@ func (p *Program) selCollectIterative(r *Run, fn *ssa.Function, rulesF, pathF *t
 		if !ok || b.Name() != "append" {
 			return false
 		}
-		for _, el := range p.flattenAppend(c, 0) {
-			if u, ok := el.(*ssa.UnOp); ok && loadsField(u, rulesF) {
-				if fa, ok := u.X.(*ssa.FieldAddr); ok && fa.X == ssa.Value(node) {
-					return true
+		// what this very call adds (its own arguments), not what the list it extends already holds
+		for _, a := range c.Call.Args[1:] {
+			for _, el := range p.origins(a, originOpts{local: true, throughSlice: true}) {
+				if u, ok := el.(*ssa.UnOp); ok && loadsField(u, rulesF) {
+					if fa, ok := u.X.(*ssa.FieldAddr); ok && fa.X == ssa.Value(node) {
+						return true
+					}
 				}
 			}
 		}
